@@ -223,8 +223,9 @@ def whole_object_ops(cls, inv, setup, load_sh=None):
     for sh, w in variants:
         v = dict(
             props='C01 C02 C15 C20', setup=setup,
-            requires=[inv + ' && FREE(self->m_mutex) && vf_held == 0 && !vf_exc && ' + R3],
+            requires=[inv + ' && FREE(self->m_mutex) && vf_held == 0 && !vf_exc && !vf_user_threw && ' + R3],
             ensures=[('C01 C02 C15 C20', one_cs(sh), 'exactly one critical section; the lock is released on normal and on exceptional exit'),
+                     ('C20', 'vf_user_threw == (vf_exc != 0)', 'an exception thrown by user code propagates to the caller; nothing else throws'),
                      ('C15', '!vf_exc ==> (vf_ret->v == vf_cs_entry_v && vf_ret->life == VF_LIVE)', 'load returns the value the object had inside the critical section'),
                      ('C15 C20', inv + ' && self->m_obj.v == vf_cs_entry_v', 'the object is not modified by load'),
                      ('', G3, 'counters')],
@@ -240,8 +241,9 @@ def whole_object_ops(cls, inv, setup, load_sh=None):
     for m in ('store', 'op_assign'):
         e[cls + '::' + m] = dict(
             props='C01 C02 C15 C20', setup=setup,
-            requires=[inv + ' && FREE(self->m_mutex) && vf_held == 0 && !vf_exc && newObj != &self->m_obj && newObj->life == VF_LIVE && newObj->guard == 0 && ' + R3],
+            requires=[inv + ' && FREE(self->m_mutex) && vf_held == 0 && !vf_exc && !vf_user_threw && newObj != &self->m_obj && newObj->life == VF_LIVE && newObj->guard == 0 && ' + R3],
             ensures=[('C01 C02 C15 C20', one_cs(False), 'exactly one exclusive critical section; the lock is released on normal and on exceptional exit'),
+                     ('C20', 'vf_user_threw == (vf_exc != 0)', 'an exception thrown by user code propagates to the caller; nothing else throws'),
                      ('C15', '!vf_exc ==> self->m_obj.v == __CPROVER_old(newObj->v)', 'store/assignment sets the value'),
                      ('C20', 'vf_exc ==> (self->m_obj.v == vf_cs_entry_v || self->m_obj.torn || self->m_obj.v == __CPROVER_old(newObj->v))', "a throwing assignment leaves T in whatever state T's own guarantee gives, nothing else"),
                      ('C15 C20', inv, 'wrapper invariant'),
